@@ -28,6 +28,20 @@ def channels(tier):
 TIER = ["quick"]
 
 
+XFAIL = [()]  # indices of records whose write is expected to raise (set per case)
+
+
+def _feed(w, records):
+    for i, r in enumerate(records):
+        if i in XFAIL[0]:
+            try:
+                w.write(r)
+            except (UnicodeError, ValueError, TypeError):
+                pass
+        else:
+            w.write(r)
+
+
 def roundtrip(records, channel):
     from flow.record import RecordReader, RecordStreamReader, RecordStreamWriter, RecordWriter
 
@@ -40,16 +54,14 @@ def roundtrip(records, channel):
     if channel == "lowlevel":
         buf = io.BytesIO()
         w = RecordStreamWriter(buf)
-        for r in records:
-            w.write(r)
+        _feed(w, records)
         w.flush()
         data = buf.getvalue()
         return list(RecordStreamReader(io.BytesIO(data)))
     if channel == "fileobj":
         buf = io.BytesIO()
         w = RecordStreamWriter(buf)
-        for r in records:
-            w.write(r)
+        _feed(w, records)
         w.flush()
         data = buf.getvalue()
         rd = RecordReader(fileobj=io.BytesIO(data))
@@ -61,8 +73,7 @@ def roundtrip(records, channel):
     p = os.path.join(os.environ["VERIF_SCRATCH"], "c01-%d-%d.records%s" % (os.getpid(), _counter[0], ext))
     try:
         w = RecordWriter(p)
-        for r in records:
-            w.write(r)
+        _feed(w, records)
         w.flush()
         w.close()
         rd = RecordReader(p)
@@ -82,7 +93,8 @@ def run_case(case):
         records = [recs.build_record(r) for r in case["records"]]
     except Exception as e:  # noqa: BLE001  constructor rejected the value: outside C01's space (that is C05)
         return {"ev": 1, "h": h, "nt": False, "out": "rejected:" + type(e).__name__}
-    expected = obs_list(records)
+    XFAIL[0] = tuple(i for i, r in enumerate(case["records"]) if r.get("xfail"))
+    expected = obs_list([r for i, r in enumerate(records) if i not in XFAIL[0]])
     viol = []
     outs = []
     nontrivial = any(any(s[1] != ["none"] for s in o[3][:-3]) if o[0] == "rec" else True for o in expected)
@@ -107,7 +119,7 @@ def run_case(case):
                                  "written": expected[idx] if 0 <= idx < len(expected) else None,
                                  "read": ogot[idx] if 0 <= idx < len(ogot) else None}))
         outs.append("diff")
-    after = obs_list(records)
+    after = obs_list([r for i, r in enumerate(records) if i not in XFAIL[0]])
     if after != expected:
         viol.append(("C01:writer-mutated-record", case, {"before": expected, "after": after}))
     # dedup signatures within the case
